@@ -89,6 +89,14 @@ class TaintClient(F.Client):
         self.linevars = set()
         self.hits = []
         self.sites = 0
+        # comprehension scoping: names bound by a comprehension are tainted iff what they iterate over is
+        self.comp_env = {}
+        self.enclosing = {}
+        for n in ast.walk(f.node):
+            if isinstance(n, (ast.ListComp, ast.GeneratorExp, ast.SetComp)):
+                for x in ast.walk(n.elt):
+                    if isinstance(x, ast.Call):
+                        self.enclosing.setdefault(id(x), []).append(n)
 
     def tainted_expr(self, node, st):
         """Does the value of expr derive from a tainted variable without passing through the map?"""
@@ -109,7 +117,16 @@ class TaintClient(F.Client):
                 parts.append(fn.value)
             return any(self.tainted_expr(p, st) for p in parts)
         if isinstance(node, ast.Name):
+            if node.id in self.comp_env:
+                return self.comp_env[node.id]
             return st.get("$t:" + node.id) == F.TRUE
+        if isinstance(node, (ast.ListComp, ast.GeneratorExp, ast.SetComp)):
+            saved = dict(self.comp_env)
+            try:
+                self.bind_comp(node, st)
+                return self.tainted_expr(node.elt, st)
+            finally:
+                self.comp_env = saved
         if isinstance(node, ast.Constant):
             return False
         if isinstance(node, ast.Compare):
@@ -124,10 +141,23 @@ class TaintClient(F.Client):
         k = self.m.class_of_name(self.f, fn.id)
         return bool(k and self.m.issub(k, self.base))
 
+    def bind_comp(self, comp, st):
+        for g in comp.generators:
+            t = self.tainted_expr(g.iter, st)
+            for nm in A.assigned_names(g.target):
+                self.comp_env[nm] = t
+
     def call_effect(self, call, st):
         if self.is_ctor(call.func):
-            for a in call.args:
-                if self.tainted_expr(a, st):
+            saved = dict(self.comp_env)
+            for comp in self.enclosing.get(id(call), []):
+                self.bind_comp(comp, st)
+            try:
+                tainted_args = [a for a in call.args if self.tainted_expr(a, st)]
+            finally:
+                self.comp_env = saved
+            for a in tainted_args:
+                if True:
                     # the equality-to-literal discharge: argument just compared equal to a keyword
                     self.hits.append((call, a))
         return (st,)
